@@ -215,3 +215,67 @@ pub fn zero_responder(kind: crate::drivers::Kind) -> Responder {
         }
     })
 }
+
+/// What a well-behaved device would answer (success, plausible contents): the default from which
+/// the adversary deviates. Without it a driver whose success value is not all zeros (sound, GPU,
+/// 9P) would fail its very first request and the rest of its script would exercise nothing.
+pub fn honest_response(kind: crate::drivers::Kind, q: u16, req: &[u8], wl: usize) -> Vec<u8> {
+    let u32at = |o: usize| if req.len() >= o + 4 { u32::from_le_bytes(req[o..o + 4].try_into().unwrap()) } else { 0 };
+    let mut v = vec![0u8; wl];
+    match (kind, q) {
+        (crate::drivers::Kind::Sound, 0) | (crate::drivers::Kind::Sound, 2) if wl >= 4 => {
+            v[0..4].copy_from_slice(&0x8000u32.to_le_bytes());
+        }
+        (crate::drivers::Kind::Gpu, 0) if wl >= 24 => {
+            let ty: u32 = match u32at(0) {
+                0x100 => 0x1101,
+                0x10a => 0x1104,
+                _ => 0x1100,
+            };
+            v[0..4].copy_from_slice(&ty.to_le_bytes());
+            if ty == 0x1101 && wl >= 24 + 24 {
+                // First scanout: 8 x 4 pixels, enabled.
+                v[32..36].copy_from_slice(&8u32.to_le_bytes());
+                v[36..40].copy_from_slice(&4u32.to_le_bytes());
+                v[40..44].copy_from_slice(&1u32.to_le_bytes());
+            }
+            if ty == 0x1104 && wl >= 32 {
+                v[24..28].copy_from_slice(&128u32.to_le_bytes());
+            }
+        }
+        (crate::drivers::Kind::P9, 0) if wl >= 7 => {
+            // A minimal 9P reply: size[4] type[1] tag[2].
+            v.truncate(7);
+            v[0..4].copy_from_slice(&7u32.to_le_bytes());
+            v[4] = req.get(4).copied().unwrap_or(0).wrapping_add(1);
+            v[5] = req.get(5).copied().unwrap_or(0);
+            v[6] = req.get(6).copied().unwrap_or(0);
+        }
+        _ => {}
+    }
+    v
+}
+
+
+/// Receive-type queues hold their buffers; every other request is answered at once with what a
+/// well-behaved device would answer.
+pub fn honest_responder(kind: crate::drivers::Kind) -> Responder {
+    use crate::drivers::Kind;
+    Box::new(move |q, chain, req| {
+        let hold = match kind {
+            Kind::Console => q == 0,
+            Kind::NetRaw | Kind::NetBuf => q == 0,
+            Kind::Input => q == 0,
+            Kind::Socket => q == 0 || q == 2,
+            Kind::Sound => q == 1 || q == 3,
+            _ => false,
+        };
+        if hold {
+            Action::Hold
+        } else {
+            let data = honest_response(kind, q, req, chain.writable_len());
+            let n = data.len() as u32;
+            Action::Complete(data, n)
+        }
+    })
+}
